@@ -635,6 +635,12 @@ func (x *Exec) simple(st *State, fr *Frame, in ssa.Instruction) bool {
 	case *ssa.UnOp:
 		switch in.Op {
 		case token.MUL: // load
+			// a package initialiser runs exactly once (Go spec, "Package initialization"): its
+			// guard word is false when the initialiser under contract is entered
+			if g, isG := in.X.(*ssa.Global); isG && g.Name() == "init$guard" && isPkgInit(fr.fn) && g.Pkg == fr.fn.Pkg {
+				x.setVal(st, fr, in, scalar(in.Type(), KBool, tFalse))
+				return true
+			}
 			pv := x.operand(st, fr, in.X)
 			x.nilCheck(st, fr, in, pv)
 			x.noteAccess(st, fr, in, pv, false)
@@ -1523,4 +1529,10 @@ func freeVarReadOnly(fv *ssa.FreeVar, depth int) bool {
 		}
 	}
 	return true
+}
+
+// isPkgInit: the synthetic package initialiser go/ssa builds from the package-level variable
+// initialisers and init functions.
+func isPkgInit(fn *ssa.Function) bool {
+	return fn != nil && fn.Synthetic == "package initializer"
 }
